@@ -1489,7 +1489,7 @@ class AbelianArray(BlockBase):
 
     @classmethod
     def from_blocks(
-        cls, blocks, duals, charge=None, symmetry=symmetry, **kwargs
+        cls, blocks, duals, charge=None, symmetry=None, **kwargs
     ):
         """Create a block array from a dictionary of blocks and sequence of
         duals.
@@ -1555,7 +1555,7 @@ class AbelianArray(BlockBase):
         index_maps,
         duals,
         charge=None,
-        symmetry=symmetry,
+        symmetry=None,
         invalid_sectors="warn",
         **kwargs,
     ):
@@ -1585,7 +1585,7 @@ class AbelianArray(BlockBase):
         AbelianArray
         """
         # XXX: warn if invalid blocks are non-zero?
-        symmetry = cls.get_class_symmetry()
+        symmetry = cls.get_class_symmetry(symmetry)
 
         if charge is None:
             charge = symmetry.combine()
